@@ -19,6 +19,7 @@ from sympy import Symbol
 from sympy.logic import And, Not, Or, Xor
 from sympy.logic.boolalg import BooleanFalse, BooleanTrue
 
+from .ast2logic.typing import is_return_symbol
 from .boolopt.bool_optimizer import merge_expressions
 from .types import interpret_as_qtype
 
@@ -81,7 +82,7 @@ def to_bqm(args, returns, exprs, fmt: BQMFormat):  # noqa: C901
         a_vars[sym.name] = Binary(sym.name)
         stbqm = SympyToBQM(a_vars)
 
-        if sym.name[0:4] == "_ret":
+        if is_return_symbol(sym.name):
             # a return bit contributes its own value to the energy, also when it is a bare symbol
             new_e = SympyToBQM(a_vars).visit(exp)
         elif isinstance(exp, Symbol):
